@@ -14,6 +14,11 @@ THEOREMS = [
     "Typedpy.C02.construct_reject", "Typedpy.C02.missing_required_is_TypeError",
     "Typedpy.C02.float_reads_float", "Typedpy.C02.boolean_reads_bool", "Typedpy.C02.enum_name_reads_member",
     "Typedpy.C02.immutableSet_reads_frozenset", "Typedpy.C02.decision_example",
+    "Typedpy.C02.fmtMatch_formatOracles", "Typedpy.C02.string_field_exact", "Typedpy.C02.ipv4_field_exact",
+    "Typedpy.C02.hostname_field_exact", "Typedpy.C02.sized_string_bound", "Typedpy.C02.format_example",
+    "Typedpy.C02.toDecimal_exact", "Typedpy.C02.toDecimal_reject", "Typedpy.C02.decimal_field_exact",
+    "Typedpy.C02.decimal_field_reject", "Typedpy.C02.decimal_reads_decimal", "Typedpy.C02.constructD_complete",
+    "Typedpy.C02.constructD_reject", "Typedpy.C02.decimal_example",
 ]
 RULE = ("classes from the type-directed declaration generator (depth <= 3/4, each constraint keyword p~0.35); "
         "per field: valid-by-construction kwargs, ALL boundary neighbours of every bound (enumerated), one value "
@@ -27,16 +32,28 @@ ASSUMPTIONS = [
 
 
 def cases(rng, tier):
-    return S.gen_cases(rng, tier, 90 if tier == "quick" else 1200) + S.default_cases(random.Random(str(rng.getstate()[1][0])), tier, 150 if tier == "quick" else 2500) + S.crosstype_cases() \
-        + X.directed_ctor_cases() + X.decimal_cases()
+    base = S.gen_cases(rng, tier, 90 if tier == "quick" else 1200) + S.default_cases(random.Random(str(rng.getstate()[1][0])), tier, 150 if tier == "quick" else 2500) + S.crosstype_cases() \
+        + X.directed_ctor_cases() + X.decimal_cases() + X.temporal_cases()
+    ext = S.gen_cases(random.Random("ext" + str(rng.getstate()[1][0])), tier, 70 if tier == "quick" else 1000, ext=True, prefix="E") + S.xstring_cases()
+    # arguments that are the library's own typed wrappers, read from a laxly declared field of another instance
+    tp = S.transplant_cases(random.Random("tp" + str(rng.getstate()[1][0])), tier, 60 if tier == "quick" else 800)
+    # DecimalNumber (Sem/Decimal.lean): bare, Array items, Map values
+    dec = S.decimal_cases(random.Random("dec" + str(rng.getstate()[1][0])), tier, 40 if tier == "quick" else 500)
+    return base + ext + tp + dec
 
 
 def search_cases(rng, tier):
-    return S.gen_cases(rng, "thorough", 400)
+    return S.gen_cases(rng, "thorough", 400) + S.gen_cases(random.Random("ext-s" + str(rng.getstate()[1][0])), "thorough", 200, ext=True, prefix="E") \
+        + S.transplant_cases(random.Random("tp-s" + str(rng.getstate()[1][0])), "thorough", 150) \
+        + S.decimal_cases(random.Random("dec-s" + str(rng.getstate()[1][0])), "thorough", 100)
 
 
 def _x(case):
-    return case.get("suite") in ("extras-ctor", "extras-decimal")
+    return case.get("suite") in ("extras-ctor", "extras-decimal", "extras-temporal")
+
+
+def _tmp(case):
+    return case.get("suite") == "extras-temporal"
 
 
 def _dec(case):
@@ -44,6 +61,8 @@ def _dec(case):
 
 
 def run_impl(case):
+    if _tmp(case):
+        return X.run_temporal(case)
     if _dec(case):
         return X.run_decimal(case)
     return X.run_ctor(case) if _x(case) else S.run_impl(case)
@@ -54,6 +73,8 @@ def line(case, impl):
 
 
 def tags(case, impl, model):
+    if _tmp(case):
+        return ["stream:extras-temporal", f"temporal:{case['leaf']}:{impl.get('out', 'skipped')}"]
     if _dec(case):
         return ["stream:extras-decimal"] + [f"decimal:{p['probe']}:{p['ctor']}" for p in impl.get("probes", [])]
     if _x(case):
@@ -66,18 +87,25 @@ def nontrivial(case):
 
 
 def describe(case, impl, model):
+    if _tmp(case):
+        return {"temporal": case, "result": impl}
     if _dec(case):
         return {"decimal": case, "probes": impl.get("probes")}
     return {"extras": [case["leaf"], case["wrap"]], "value": impl.get("value"), "out": impl.get("out"), "exc": impl.get("exc")} if _x(case) else S.describe(case, impl, model)
 
 
 def judge(case, impl, model):
+    if _tmp(case):
+        return None, X.judge_temporal(case, impl)
     if _dec(case):
         return None, ([] if "skip" in impl else X.judge_decimal_ctor(case, impl))
     if _x(case):
         return None, X.judge_ctor(case, impl)
+    if model is None:
+        return None, S.oracle_only_findings(case, impl)
+    dev = S.deviation_findings(case, impl, "accepts-undocumented", "rejects-documented")        # the library's bare formatted-string field vs the documented language
     msg = S.correspondence(case, impl, model)
-    fails = []
+    fails = list(dev)
     if "unbuildable" in impl or "abstraction_mismatch" in impl:
         return msg, fails
     kind = S.top_kind(case)
